@@ -636,14 +636,20 @@ def same_mask(m1, m2):
             return False
         c = ctx()
         idx = [z3.Int("smk!%d" % d) for d in range(m1.ndim)]
+        import os
         nf = len(c.facts)
         saved, c.binders = c.binders, [idx]
         try:
             e1, e2 = m1.elem(*idx), m2.elem(*idx)
         finally:
             c.binders = saved
+        if os.environ.get("PYVC_DEBUG") and not z3.simplify(e1).eq(z3.simplify(e2)):
+            print("same_mask differs:", str(z3.simplify(e1))[:300], "||", str(z3.simplify(e2))[:300])
         return z3.simplify(e1).eq(z3.simplify(e2))
-    except Exception:
+    except Exception as ex:
+        import os
+        if os.environ.get("PYVC_DEBUG"):
+            print("same_mask error", repr(ex))
         return False
 
 
